@@ -30,7 +30,6 @@ structure Story where
   /-- verification hooks: step budget and virtual clock -/
   fuel : Option Nat
   stepClock : Bool
-  deriving Inhabited
 
 inductive OutputStateChange where
   | noChange | extendedBeyondNewline | newlineRemoved
@@ -57,10 +56,20 @@ def env (st : Story) : Env :=
 
 def canContinue (st : Story) : Bool := st.state.canContinue
 
-/-- run a step-level action on the story -/
+def core (st : Story) : Core := st.state.core
+
+def setCore (st : Story) (c : Core) : Story := { st with state := { st.state with core := c } }
+
+def mapCore (st : Story) (f : Core → Core) : Story := st.setCore (f st.core)
+
+/-- Run a step-level action on the story: the action sees the core, the
+    external bindings, the event log and the unsafe flag; the warnings it
+    raised are appended to the state's warning list afterwards. -/
 def runM {α : Type} (st : Story) (m : M α) : Out α × Story :=
-  let (r, st') := m { s := st.state, externals := st.externals, events := st.events, sawUnsafe := st.sawUnsafe }
-  (r, { st with state := st'.s, externals := st'.externals, events := st'.events, sawUnsafe := st'.sawUnsafe })
+  let (r, st') := m { s := st.state.core, externals := st.externals, events := st.events,
+                      sawUnsafe := st.sawUnsafe, newWarnings := [] }
+  (r, { st with state := { st.state with core := st'.s, warnings := st.state.warnings ++ st'.newWarnings },
+                externals := st'.externals, events := st'.events, sawUnsafe := st'.sawUnsafe })
 
 /-- `state_snapshot` -/
 def stateSnapshot (st : Story) : Story :=
@@ -78,7 +87,9 @@ def discardSnapshot (st : Story) : Story :=
 
 /-- `add_error` on the story -/
 def addError (st : Story) (msg : String) (isWarning : Bool) : Story :=
-  { st with state := Ink.addError st.root st.state msg isWarning }
+  if isWarning then
+    { st with state := { st.state with warnings := st.state.warnings ++ [errorText st.root st.core msg true] } }
+  else st.setCore (addErrorCore st.root st.core msg)
 
 /-- `continue_single_step`: `(ok endsInNewline | err | panic, story)` -/
 def continueSingleStep (st : Story) : Out Bool × Story :=
@@ -87,14 +98,14 @@ def continueSingleStep (st : Story) : Out Bool × Story :=
   | (.panic p, st1) => (.panic p, st1)
   | (.ok (), st1) =>
     let r2 : Out Unit × Story :=
-      if !st1.canContinue && !st1.state.callstack.elementIsEvaluateFromGame then
+      if !st1.canContinue && !st1.core.callstack.elementIsEvaluateFromGame then
         st1.runM (tryFollowDefaultInvisibleChoice st1.env)
       else (.ok (), st1)
     match r2 with
     | (.err k m, st2) => (.err k m, st2)
     | (.panic p, st2) => (.panic p, st2)
     | (.ok (), st2) =>
-      if st2.state.inStringEvaluation then (.ok false, st2)
+      if st2.core.inStringEvaluation then (.ok false, st2)
       else
         -- were we double checking that a newline would not be removed by glue?
         let afterCheck : Option Story :=       -- `none` = finished (rewound to the snapshot)
@@ -109,7 +120,7 @@ def continueSingleStep (st : Story) : Out Bool × Story :=
         match afterCheck with
         | none => (.ok true, st2.restoreSnapshot)
         | some st3 =>
-          if st3.state.outputEndsInNewline then
+          if st3.core.outputEndsInNewline then
             if st3.canContinue then
               (.ok false, if st3.snapshot.isNone then st3.stateSnapshot else st3)
             else (.ok false, st3.discardSnapshot)
@@ -128,8 +139,7 @@ def stepLoop (budget : Option Nat) : Nat → Nat → Story → Out LoopEnd × St
   | fuel + 1, steps, st =>
     let steps := steps + 1
     -- verification step budget (hook H2)
-    let hookExhausted : Bool := st.fuel == some 0
-    if hookExhausted then (.ok .error, st.addError "VERIF_FUEL" false)
+    if st.fuel == some 0 then (.ok .error, st.addError "VERIF_FUEL" false)
     else
       let st := { st with fuel := st.fuel.map (· - 1) }
       match st.continueSingleStep with
@@ -149,11 +159,11 @@ def cannotContinueMsg : String := "Can't continue - should check can_continue be
 /-- The "ran out of content" diagnostics at the end of a continue. -/
 def endChecks (st : Story) : Story :=
   let st1 :=
-    if st.state.callstack.canPopThread then
+    if st.core.callstack.canPopThread then
       st.addError "Thread available to pop, threads should always be flat by the end of evaluation?" false
     else st
-  if st1.state.flow.choices.isEmpty && !st1.state.didSafeExit then
-    let cs := st1.state.callstack
+  if st1.core.flow.choices.isEmpty && !st1.core.didSafeExit then
+    let cs := st1.core.callstack
     if cs.canPopType (some .tunnel) then
       st1.addError "unexpectedly reached end of content. Do you need a '->->' to return from a tunnel?" false
     else if cs.canPopType (some .function) then
@@ -163,79 +173,83 @@ def endChecks (st : Story) : Story :=
     else st1.addError "unexpectedly reached end of content for unknown reason. Please debug compiler!" false
   else st1
 
-/-- `complete_variable_observation`: `none` = panic (a changed name without value). -/
-def completeObservation (s : StoryState) : Option (StoryState × List (String × Val)) :=
-  let names := s.changedVars.getD []
-  if names.all (fun n => (alGet s.globals n).isSome) then
-    some ({ s with batchObserving := false, changedVars := none },
-          names.filterMap (fun n => (alGet s.globals n).map (fun v => (n, v))))
-  else none
-
 def pluralS (n : Nat) (word : String) : String := if n == 1 then word else word ++ "s"
 
 def noHandlerMessage (s : StoryState) : String :=
-  "Ink had " ++ toString s.errors.length ++ " " ++ pluralS s.errors.length "error"
+  "Ink had " ++ toString s.core.errors.length ++ " " ++ pluralS s.core.errors.length "error"
   ++ (if s.hasWarning then " and " ++ toString s.warnings.length ++ " " ++ pluralS s.warnings.length "warning" else "")
   ++ ". It is strongly suggested that you assign an error handler to story.onError. The first issue was: "
-  ++ s.errors.headD ""
+  ++ s.core.errors.headD ""
 
+/-- One notification event per (changed variable, registered observer). -/
 def obsEvents (st : Story) (changed : List (String × Val)) : List Json :=
   changed.flatMap (fun nv =>
     ((alGet st.observers nv.1).getD []).map (fun id => Json.arr [.str "obs", .str id, .str nv.1, encVal nv.2]))
 
+/-- Prologue of `continue_internal` (after the can-continue test). -/
+def beginContinue (st : Story) (isAsync : Bool) : Story :=
+  let st := { st with recCount := st.recCount + 1 }
+  let st :=
+    if !st.asyncActive then
+      let c1 := ({ st.core with didSafeExit := false }).resetOutput none
+      let c2 := if st.recCount == 1 then { c1 with vars := c1.vars.startObservation } else c1
+      { (st.setCore c2) with asyncActive := isAsync }
+    else if !isAsync then { st with asyncActive := false }
+    else st
+  { st with sawUnsafe := false }
+
+/-- The block executed when the line is finished or the story cannot go on:
+    rewind, diagnostics, close the observation batch.  Returns the story and
+    the changed variables with their values (`none` = the Rust panic of
+    `complete_variable_observation`). -/
+def finishContinue (st : Story) : Option (Story × List (String × Val)) :=
+  let st2 := if st.snapshot.isSome then st.restoreSnapshot else st
+  let st3 := if !st2.canContinue then st2.endChecks else st2
+  let st4 := { (st3.mapCore (fun c => { c with didSafeExit := false })) with sawUnsafe := false }
+  if st4.recCount == 1 then
+    let (names, vars') := st4.core.vars.completeObservation
+    if names.all (fun n => (vars'.get n).isSome) then
+      some ({ (st4.mapCore (fun c => { c with vars := vars' })) with asyncActive := false },
+            names.filterMap (fun n => (vars'.get n).map (fun v => (n, v))))
+    else none
+  else some ({ st4 with asyncActive := false }, [])
+
+/-- Delivery of errors and warnings at the end of `continue_internal`. -/
+def deliver (st : Story) : Out Unit × Story :=
+  if st.state.hasError || st.state.hasWarning then
+    if st.handler then
+      let evs := st.core.errors.map (fun m => Json.arr [.str "handler", .str "E", .str m])
+        ++ st.state.warnings.map (fun m => Json.arr [.str "handler", .str "W", .str m])
+      (.ok (), { st with events := evs.reverse ++ st.events,
+                         state := { st.state with core := { st.core with errors := [] }, warnings := [] },
+                         snapshot := st.snapshot.map (fun sn =>
+                           { sn with core := { sn.core with errors := [] }, warnings := [] }) })
+    else if st.state.hasError then (.invalid (noHandlerMessage st.state), st)
+    else (.ok (), st)
+  else (.ok (), st)
+
+/-- Observer notifications, sent last. -/
+def notify (st : Story) (changed : List (String × Val)) : Story :=
+  { st with events := (obsEvents st changed).reverse ++ st.events }
+
 /-- `continue_internal(millis)`.  `budget = none` is a blocking continue;
     `some n` a time-limited one on the virtual clock (n > 0). -/
 def continueInternal (st : Story) (budget : Option Nat) (modelFuel : Nat) : Out Unit × Story :=
-  let isAsync := budget.isSome
   if !st.asyncActive && !st.canContinue then (.invalid cannotContinueMsg, st)
   else
-    let st := { st with recCount := st.recCount + 1 }
-    let st :=
-      if !st.asyncActive then
-        let s1 := ({ st.state with didSafeExit := false }).resetOutput none
-        let s2 := if st.recCount == 1 then { s1 with batchObserving := true, changedVars := some [] } else s1
-        { st with asyncActive := isAsync, state := s2 }
-      else if !isAsync then { st with asyncActive := false }
-      else st
-    let st := { st with sawUnsafe := false }
-    match stepLoop (if st.asyncActive then budget else none) modelFuel 0 st with
+    let st0 := st.beginContinue budget.isSome
+    match stepLoop (if st0.asyncActive then budget else none) modelFuel 0 st0 with
     | (.panic p, st1) => (.panic p, st1)
     | (.err k m, st1) => (.err k m, st1)
     | (.ok .outOfFuel, st1) => (.err "ModelFuel" "model fuel exhausted", st1)
     | (.ok why, st1) =>
-      -- finished the line, or cannot go on (choices, end, error)
-      let finished := why == .newline || !st1.canContinue
-      let fin : Option (Story × Option (List (String × Val))) :=
-        if finished then
-          let st2 := if st1.snapshot.isSome then st1.restoreSnapshot else st1
-          let st3 := if !st2.canContinue then st2.endChecks else st2
-          let st4 := { st3 with state := { st3.state with didSafeExit := false }, sawUnsafe := false }
-          if st4.recCount == 1 then
-            match completeObservation st4.state with
-            | some (s', changed) => some ({ st4 with state := s', asyncActive := false }, some changed)
-            | none => none
-          else some ({ st4 with asyncActive := false }, none)
-        else some (st1, none)
+      let fin : Option (Story × List (String × Val)) :=
+        if why == .newline || !st1.canContinue then st1.finishContinue else some (st1, [])
       match fin with
       | none => (.panic "variables_state.rs:complete_variable_observation", st1)
       | some (st5, changed) =>
-        let st6 := { st5 with recCount := st5.recCount - 1 }
-        -- report errors / warnings
-        let deliver : Out Unit × Story :=
-          if st6.state.hasError || st6.state.hasWarning then
-            if st6.handler then
-              let evs := st6.state.errors.map (fun m => Json.arr [.str "handler", .str "E", .str m])
-                ++ st6.state.warnings.map (fun m => Json.arr [.str "handler", .str "W", .str m])
-              (.ok (), { st6 with events := evs.reverse ++ st6.events,
-                                  state := { st6.state with errors := [], warnings := [] },
-                                  snapshot := st6.snapshot.map (fun sn => { sn with errors := [], warnings := [] }) })
-            else if st6.state.hasError then (.invalid (noHandlerMessage st6.state), st6)
-            else (.ok (), st6)
-          else (.ok (), st6)
-        match deliver with
-        | (.ok (), st7) =>
-          let evs := obsEvents st7 (changed.getD [])
-          (.ok (), { st7 with events := evs.reverse ++ st7.events })
+        match ({ st5 with recCount := st5.recCount - 1 }).deliver with
+        | (.ok (), st7) => (.ok (), st7.notify changed)
         | other => other
 
 end Story
